@@ -296,7 +296,7 @@ def cost_table_part(chk, tab, mj, insts, infos_by_inst, hook):
     ids = {n: i for i, n in enumerate(tab["names"])}
     cost = tab["cost"]
     # --- static: straight-line templates (no hook needed): consumed fuel = sum of the table over the dumped stream
-    nsl = 3000 if chk.thorough else 400
+    nsl = 0 if chk.replay else 3000 if chk.thorough else 400
     reqs, srcs = [], []
     for _ in range(nsl):
         src = sl_body(chk.rng, 0, [0])
@@ -358,9 +358,9 @@ def cost_table_part(chk, tab, mj, insts, infos_by_inst, hook):
             info = infos_by_inst.get(inst)
             c = sum(cost[x] for x in names)
             if o[0] == 0 and (o[1] != c or o[2] != BIG - c):
-                viol.append(("consumed fuel differs from the sum of fuel_for_instruction over the executed instruction trace",
-                             {"theorem_or_correspondence": "GenFuelTable vs executed trace", "case": list(inst) + [BIG], "consumed": o[1], "table_sum": c,
-                              "profile": "release" if rel else "debug"}, True)); continue
+                viol.append(("consumed fuel differs from the sum of fuel_for_instruction over the executed instruction trace (instructions run without being charged to the render's tracker, or charged twice)",
+                             {"case": list(inst) + [BIG], "describe": describe(list(inst) + [BIG]), "consumed": o[1], "table_sum_over_executed_trace": c,
+                              "executed_instructions": len(names), "profile": "release" if rel else "debug", "how": "./check C13 --replay <this file>"}, False)); continue
             if info is not None and info["c"] != c:
                 viol.append(("cost located by the budget sweep differs from the table sum over the executed trace",
                              {"theorem_or_correspondence": "GenFuelTable vs budget sweep", "case": list(inst) + [BIG], "sweep_cost": info["c"], "table_sum": c}, True)); continue
@@ -402,6 +402,141 @@ def cost_table_part(chk, tab, mj, insts, infos_by_inst, hook):
     return viol, cov
 
 
+# ------------------------------------------------------------------------------------------
+# history part: one State, a sequence of evaluations, levels after each
+# ------------------------------------------------------------------------------------------
+OPNAMES = ["call_macro big", "call_macro small", "call_macro empty", "call_macro mid", "render_block bigblock", "render_block smallblock",
+           "render_block nest", "call_macro <unknown>", "render_block <unknown>"]
+FIXED_SEQS = [[0, 0, 0, 0], [1, 0, 0, 1, 0], [4, 4, 4], [0, 4, 0, 4, 2, 1], [1, 1, 1, 1, 1, 1], [3, 6, 3, 6, 0, 0], [2, 2, 0, 2, 0, 2], [5, 5, 5], [4], [0],
+              [7, 0, 8, 0, 7, 0], [6, 0, 6, 4, 6], [1, 5, 2, 0, 0, 5, 1, 2]]
+
+
+def describe_hist(h):
+    n, m, b, init, ops = h
+    return {"template": "history template (macros big/small/empty/mid, blocks bigblock/smallblock/nest), n=%d m=%d" % (n, m), "budget": b,
+            "state": "render_captured" if init == 0 else "new_state", "operations": [OPNAMES[o] for o in ops]}
+
+
+def hist_case(h):
+    n, m, b, init, ops = h
+    return [n, m, b, init, len(ops)] + list(ops)
+
+
+def triples(o):
+    return [tuple(o[i:i + 3]) for i in range(0, len(o) - len(o) % 3, 3)]
+
+
+def history_part(chk, mj):
+    """Returns (violations, coverage)."""
+    rng = chk.rng
+    viol, cov = [], {}
+    if chk.replay:
+        rp = json.load(open(chk.replay))["replay"]
+        if "history" not in rp:
+            return viol, cov
+        hs = [tuple(rp["history"][:4]) + (tuple(rp["history"][4]),)]
+        skeletons = [(hs[0][0], hs[0][1], hs[0][3], hs[0][4])]
+    else:
+        skeletons = []
+        for (n, m) in [(0, 0), (1, 2), (3, 1)] + ([(5, 4), (2, 7), (8, 0)] if chk.thorough else []):
+            for init in (0, 1):
+                seqs = [list(x) for x in FIXED_SEQS]
+                for _ in range(60 if chk.thorough else 14):
+                    seqs.append([rng.below(9) for _ in range(1 + rng.below(8))])
+                for ops in seqs:
+                    skeletons.append((n, m, init, tuple(ops)))
+    # phase A: the cost of every step when fuel never runs out
+    big = {rel: prun_plain([bin_path("c13_hist", rel)], [hist_case((n, m, BIG, init, ops)) for n, m, init, ops in skeletons]) for rel in (False, True)}
+    hists, meta = [], []
+    for j, (n, m, init, ops) in enumerate(skeletons):
+        o = big[False][j]
+        if big[True][j] != o or not o or o[0] == "CRASH" or o == [2] or len(o) != 3 * (len(ops) + 1):
+            viol.append(("history run with budget 2^40 crashes or differs between debug and release", {"history": [n, m, BIG, init, list(ops)], "describe": describe_hist((n, m, BIG, init, ops)),
+                                                                                                      "debug": o[:30], "release": big[True][j][:30]}, False))
+            continue
+        tr = triples(o)
+        costs, kinds, prev = [], [], 0
+        okb = True
+        for (r, c, rem) in tr:
+            if c + rem != BIG or c < prev or r == 21:
+                okb = False
+            costs.append(c - prev); kinds.append(r); prev = c
+        if not okb:
+            viol.append(("levels of a history with budget 2^40 do not add up / decrease", {"history": [n, m, BIG, init, list(ops)], "describe": describe_hist((n, m, BIG, init, ops)), "output": o[:40]}, False))
+            continue
+        if chk.replay:
+            bs = [hs[0][2]]
+        else:
+            c0, cum = costs[0], []
+            acc = 0
+            for c in costs:
+                acc += c; cum.append(acc)
+            bs = {0, 1, 2, c0, c0 + 1, c0 + 2, 2**63, 2**64 - 1}
+            for a in cum:
+                bs |= {a, a + 1}
+            for c in set(costs[1:]):
+                bs |= {c0 + c, c0 + c + 1, c0 + 2 * c, c0 + 2 * c + 1}
+            for _ in range(4):
+                bs.add(rng.below(cum[-1] + 3))
+            bs = sorted(b for b in bs if b >= 0)
+        for b in bs:
+            hists.append((n, m, b, init, ops)); meta.append((costs, kinds))
+    cases = [hist_case(h) for h in hists]
+    mcases = [[h[2]] + [x for c in costs for x in [c] + [1] * c] for h, (costs, kinds) in zip(hists, meta)]
+    mo = prun_plain([mj, "c13-history"], mcases)
+    pinned = 0
+    for rel in (False, True):
+        outs = prun_plain([bin_path("c13_hist", rel)], cases)
+        for h, (costs, kinds), o, m in zip(hists, meta, outs, mo):
+            n, mm, b, init, ops = h
+            rp = {"history": [n, mm, b, init, list(ops)], "describe": describe_hist(h), "profile": "release" if rel else "debug", "output": o[:40], "how": "./check C13 --replay <this file>"}
+            if not o or o[0] == "CRASH" or o == [2]:
+                viol.append(("history crashes", rp, False)); continue
+            tr = triples(o)
+            # first principles: the tracker of the state goes on from where the previous evaluation left it
+            acc, exp, dead = 0, [], False
+            for j, (c, kind) in enumerate(zip(costs, kinds)):
+                if c == 0 or c < b - acc:
+                    acc += c
+                    exp.append((kind, acc, b - acc))
+                else:
+                    acc = b
+                    exp.append((21, b, 0))
+                    if j == 0 and init == 0:
+                        exp[-1] = (21, -2, -2)      # the render itself failed: there is no state to go on with
+                        dead = True
+                        break
+            # the property, literally, on the implementation's answers
+            prev, bad = 0, None
+            for j, (r, c, rem) in enumerate(tr):
+                if (c, rem) == (-2, -2):
+                    break
+                if c + rem != b:
+                    bad = "consumed + remaining differs from the budget after step %d of a history on one State" % j
+                elif c < prev:
+                    bad = "consumed fuel decreases along a history on one State (step %d)" % j
+                elif r not in (21, kinds[j] if j < len(kinds) else r):
+                    bad = "a step of a history fails with an error that is neither its own nor OutOfFuel (step %d)" % j
+                if bad:
+                    break
+                prev = c
+            if bad:
+                viol.append((bad, rp, False)); continue
+            if tr != exp:
+                viol.append(("levels / results along a history differ from the tracker carried from evaluation to evaluation",
+                             dict(rp, expected=[list(x) for x in exp], theorem_or_correspondence="history prediction from per-step costs"), True)); continue
+            if not dead:
+                mexp = [x for (r, c, rem) in exp for x in (1 if r == 21 else 0, c, rem)]
+                if m != mexp and rel is False:
+                    viol.append(("model tracker run over the history differs from the prediction", {"theorem_or_correspondence": "C13.Runner.run_history", "history": rp["history"], "model": m[:40], "expected": mexp[:40]}, True))
+            if rel is False and sum(1 for (r, c, rem) in tr if r == 21) >= 2:
+                pinned += 1
+    cov["histories"] = len(hists)
+    cov["skeletons"] = len(skeletons)
+    cov["histories_with_two_or_more_out_of_fuel_steps"] = pinned
+    return viol, cov
+
+
 def describe(case):
     p, n, m, k, b = case[:5]
     return {"program": "%d (%s)" % (p, FAMILY[p] if p < len(FAMILY) else "?"), "n": n, "m": m, "k": k, "budget": b}
@@ -409,7 +544,7 @@ def describe(case):
 
 def main():
     chk = Check("C13", "proof")
-    chk.cov["trusted_base"] = TRUSTED_COMMON + ["Print Assumptions: all eleven theorems closed under the global context (no axioms)",
+    chk.cov["trusted_base"] = TRUSTED_COMMON + ["Print Assumptions: all fourteen theorems closed under the global context (no axioms)",
                                                "tools/fuel_table.py (translator vm/fuel.rs::fuel_for_instruction + enum Instruction -> C13/GenFuelTable.v; whitelisted arm syntax, fails on anything else); the table is compared with the engine's consumed fuel over dumped straight-line streams and, with the instruction hook, over the executed trace of every program of the family",
                                                "the render is abstract in the theorems (any deterministic step system); that eval_impl asks the one tracker before every instruction of every nested evaluation is established by the correspondence run (34 program shapes incl. macros, includes, inheritance), not by proof"]
     chk.assumptions = ["64-bit target (u64 fuel counter)", "templates do not branch on State::fuel_levels (no builtin does; the harness's probe() returns '')",
@@ -427,6 +562,8 @@ def main():
     trace_hook = has_feature and "set_instruction_hook" in open(os.path.join(REPO, "minijinja", "src", "lib.rs")).read()
     feats = ("hooks",) if has_feature else ()
     for rel in (False, True):
+        okh, hlog = cargo_build(["c13_hist"], release=rel)
+        okc, clog = okc and okh, clog + hlog
         okt, tlog = cargo_build(["c13_trace", "prog"], release=rel, features=feats)
         okc, clog = okc and okt, clog + tlog
     if not (okc and okr):
@@ -437,9 +574,9 @@ def main():
         chk.finish()
     only_b = None
     if chk.replay:
-        rp = json.load(open(chk.replay))["replay"]["case"]
-        insts, nprogs = [tuple(rp[:4])], len(FAMILY)
-        only_b = rp[4]
+        rp = json.load(open(chk.replay))["replay"].get("case")
+        insts, nprogs = ([tuple(rp[:4])] if rp else []), len(FAMILY)
+        only_b = rp[4] if rp else None
     else:
         insts, nprogs = instances(chk)
     infos, problems = phase1(chk, insts)
@@ -481,8 +618,10 @@ def main():
     model_vs_spec = [i for i in range(len(cases)) if mod[i] != spec[i]]
     mism = [(i, rel) for i in range(len(cases)) for rel in (False, True) if impn[rel][i] != mod[i]]
     # --- cost-table part
-    ct_viol, ct_cov = ([], {}) if chk.replay else cost_table_part(chk, tab, os.path.join(EXTRACT, "C13", "mjmodel"), [x["inst"] for x in infos],
+    ct_viol, ct_cov = cost_table_part(chk, tab, os.path.join(EXTRACT, "C13", "mjmodel"), list(insts),
                                                                   {x["inst"]: x for x in infos}, trace_hook)
+    # --- history part
+    hi_viol, hi_cov = history_part(chk, os.path.join(EXTRACT, "C13", "mjmodel"))
     # --- coverage
     hist = collections.Counter()
     nontriv = set()
@@ -511,6 +650,7 @@ def main():
     chk.cov["samples"] = [dict(describe(cases[i]), cost=infos[owner[i]]["c"], implementation=imp[False][i][:12]) for i in pick]
     chk.cov["distribution"] = dict(hist)
     chk.cov["out_of_fuel_reported_with_wrapper_kind"] = dict(wrapped_n)
+    chk.cov["history_part"] = hi_cov
     chk.cov["cost_table"] = dict(ct_cov, opcodes=len(tab["names"]), zero_cost=sorted(n for n in tab["names"] if tab["cost"][n] == 0))
     chk.cov["max_cost"] = max([x["c"] for x in infos] or [0])
     chk.cov["model_vs_spec_disagreements"] = len(model_vs_spec)
@@ -534,7 +674,7 @@ def main():
             old = model("c13-old-release" if rel else "c13-old-debug", [cases[i]])[0]
             rep["explained_by_isize_counter_model"] = (old[:3] == impn[rel][i][:3])
         chk.violation(what, rep)
-    for what, rp, nfi in ct_viol[:4]:
+    for what, rp, nfi in ct_viol[:4] + hi_viol[:4]:
         chk.violation(what, rp, nfi)
     if not literal_bad and not problems:
         if spec_bad:
